@@ -6,9 +6,8 @@
 (* harness attaches it as an `id` variable and reads it back from the result). *)
 (* Parameters: I  max_interval in ticks (strict), -1 = absent                  *)
 (*             k  radius class (inclusive)                                     *)
-(*             ws, we  closed time window; it is applied together with the     *)
-(*                     temporal criterion (see DESIGN: with max_interval=None  *)
-(*                     typhon documents a purely spatial search)               *)
+(*             ws, we  closed time window (start, end): both points of a pair  *)
+(*                     lie in it -- also when no max_interval is given          *)
 EXTENDS Integers, Sequences, FiniteSets
 
 CONSTANT N
@@ -22,7 +21,7 @@ InWin(a, ws, we) == ws <= a[1] /\ a[1] <= we
 Pairs(P, S, I, k, ws, we) ==
     {p \in (1..Len(P)) \X (1..Len(S)) :
         /\ Near(P[p[1]], S[p[2]], k) /\ Close(P[p[1]], S[p[2]], I)
-        /\ (I >= 0 => InWin(P[p[1]], ws, we) /\ InWin(S[p[2]], ws, we))}
+        /\ InWin(P[p[1]], ws, we) /\ InWin(S[p[2]], ws, we)}
 
 SeqRange(s) == {s[i] : i \in 1..Len(s)}
 
